@@ -10,8 +10,9 @@ from . import canon, gen
 class View:
     """indexable view of a finished trace (implementation side only)"""
 
-    def __init__(self, trace):
-        self.ops = trace.ops
+    def __init__(self, trace, ops=None, offset=0):
+        self.ops = trace.ops if ops is None else ops
+        self.offset = offset
         self.kind, self.call, self.R, self.D = [], [], [], []
         self.variant = None
         self.deploy = None
@@ -66,6 +67,31 @@ class View:
 
     def committed(self, i):
         return self.accepted(i) and not self.call[i]["probe"]
+
+
+def views(trace):
+    """one View per deployment: a trace may deploy several contracts one after the other"""
+    starts = [i for i, (l, _, _) in enumerate(trace.ops) if l.startswith("deploy")]
+    if len(starts) <= 1:
+        return [View(trace)]
+    out = []
+    bounds = starts + [len(trace.ops)]
+    if starts[0] > 0:
+        out.append(View(trace, trace.ops[:starts[0]], 0))
+    for a, b in zip(bounds, bounds[1:]):
+        out.append(View(trace, trace.ops[a:b], a))
+    return out
+
+
+def run_all(trace):
+    """all monitors on all deployment segments: {pid: [(global index, message)]}"""
+    res = {}
+    for v in views(trace):
+        for pid, ms in MONITORS.items():
+            for m in ms:
+                for (idx, msg) in m(v):
+                    res.setdefault(pid, []).append((idx + v.offset, msg))
+    return res
 
 
 def ilist(v):
@@ -1068,3 +1094,46 @@ MONITORS.update({
     "C06": [m_C06], "C10": [m_C10], "C11": [m_C11], "C14": [m_C14], "C15": [m_C15], "C16": [m_C16],
     "C17": [m_C17], "C18": [m_C18], "C19": [m_C19], "C20": [m_C20],
 })
+
+
+def m_deploy(v):
+    """deployment must reject invalid sale terms / timelines / lock and NFT parameters"""
+    out = {}
+    if not v.deploy or v.kind[0] != "deploy" or v.R[0]["st"] != "ok":
+        return out
+    d = v.deploy
+    t = v.ops[0][0].split()
+    rnd, epoch = int(t[3]), int(t[4])
+
+    def add(pid, msg):
+        out.setdefault(pid, []).append((0, msg))
+    if d["price"] == 0 or d["per"] == 0 or d["nrw"] == 0:
+        add("C17", f"C17 deployment accepted with price {d['price']}, tokens-per-ticket {d['per']}, winners {d['nrw']}")
+    if not (d["conf"] < d["sel"] <= d["claim"]):
+        add("C06", f"C06 deployment accepted with timeline {d['conf']},{d['sel']},{d['claim']}")
+    if d["paytok"] == d["lp"]:
+        add("C01", "C01 deployment accepted with the launchpad token as payment token")
+    if v.variant in gen.LOCKED:
+        if not (0 < d["lockpct"] <= 10000):
+            add("C16", f"C16 deployment accepted with lock percentage {d['lockpct']}")
+        if d["unlock"] <= epoch:
+            add("C16", f"C16 deployment accepted with unlock epoch {d['unlock']} at epoch {epoch}")
+        if d["lockaddr"] < 900:
+            add("C16", f"C16 deployment accepted with lock contract address {d['lockaddr']} (not a contract)")
+    if v.variant in gen.NFT:
+        cost_nonce = int(t[18])
+        if d["avail"] == 0 or d["fee"] == 0 or (d["feetok"] == 0 and cost_nonce != 0) or d["feetok"] == 1:
+            add("C14", f"C14 deployment accepted with {d['avail']} NFTs, fee {d['feetok']}:{cost_nonce}:{d['fee']}")
+    if v.variant in gen.V1ALLOC and d["minc"] == 0:
+        add("C11", "C11 deployment accepted with a zero confirmation threshold for guarantees")
+    return out
+
+
+def _deploy_monitor(pid):
+    def m(v):
+        return m_deploy(v).get(pid, [])
+    return m
+
+
+for _pid in ("C01", "C06", "C11", "C14", "C16", "C17"):
+    MONITORS.setdefault(_pid, []).append(_deploy_monitor(_pid))
